@@ -563,7 +563,7 @@ func (c *CaseResult) setCounter(k string, v int) {
 func init() {
 	register(&Check{
 		ID: "C20", Level: "exploration",
-		Rule: "four loaders (BuildRuleFromResource, JSONResource.Load + builder, DataContext.AddJSON, LoadKnowledgeBaseFromReader), batches of 200 inputs per sandboxed child process (RLIMIT_AS 4 GiB, BEGIN/END progress log, in-child CPU watchdog): random bytes, valid seeds, and structure-aware mutants of valid GRL / JSON-rule / JSON-fact / GRB seeds (bit flips, byte edits, truncation, splicing, duplication, dictionary tokens, boundary numbers, structure-aware JSON node replacement (null, empty containers, wrong kinds), deep nesting up to 64 levels for rules and 2000 for JSON facts; for GRB every kind of edit of the 8-byte length / count fields to 0, 1, len+-1, 2^16, 2^20, 2^31, 2^32, 2^40, 2^62, 2^63, 2^64-1); size bound 4 KiB (GRL, JSON rules) / 64 KiB (JSON facts, GRB); verdicts: panic escaping the API, death of the process, CPU time above T(n) = 30 s + 2 us * n^2, memory obtained from the OS above M(n) = 512 MiB + 256 * n; non-trivial = distinct inputs that get past the loader's first syntactic check; encoding / emptiness edge inputs per text loader (byte order marks alone, with blanks, around valid texts and their prefixes, UTF-16 marks, NULs); GRB id splices (a node id copied over one of the next three ids = self reference, or over a random other one); the targeted documents of C17 verbatim and as seeds",
+		Rule: "four loaders (BuildRuleFromResource, JSONResource.Load + builder, DataContext.AddJSON, LoadKnowledgeBaseFromReader), batches of 200 inputs per sandboxed child process (RLIMIT_AS 4 GiB, BEGIN/END progress log, in-child CPU watchdog): random bytes, valid seeds, and structure-aware mutants of valid GRL / JSON-rule / JSON-fact / GRB seeds (bit flips, byte edits, truncation, splicing, duplication, dictionary tokens, boundary numbers, structure-aware JSON node replacement (null, empty containers, wrong kinds), deep nesting up to 64 levels for rules and 2000 for JSON facts; for GRB every kind of edit of the 8-byte length / count fields to 0, 1, len+-1, 2^16, 2^20, 2^31, 2^32, 2^40, 2^62, 2^63, 2^64-1); size bound 4 KiB (GRL, JSON rules) / 64 KiB (JSON facts, GRB); verdicts: panic escaping the API, death of the process, CPU time above T(n) = 30 s + 2 us * n^2, memory obtained from the OS above M(n) = 512 MiB + 256 * n; non-trivial = distinct inputs that get past the loader's first syntactic check; encoding / emptiness edge inputs per text loader (byte order marks alone, with blanks, around valid texts and their prefixes, UTF-16 marks, NULs); GRB id splices (a node id copied over one of the next three ids = self reference, or over a random other one); the targeted documents of C17 verbatim and as seeds; three-operand JSON operator objects nested 18-30 times in their own middle operand; GRL seeds with long runs of non-ASCII text; every targeted document of C17 once per ten GRL cases",
 		Assume: []string{"budgets T(n), M(n) are fixed (>=10x the worst case measured on the unchanged tree, recorded as max_cpu_ms_* / max_sys_growth_kib_* in the evidence)", "wall-clock watchdog (15 min per batch) only yields inconclusive"},
 		Cases:  tierN(40, 4000),
 		Run:    runC20Case,
